@@ -65,7 +65,7 @@ def deco(arr):
     return arr
 
 
-def catalogue(da, a, b, t, sq, v, ds, tmpdir, cn, extra=None, lab3=None):
+def catalogue(da, a, b, t, sq, v, ds, tmpdir, cn, extra=None, lab3=None, jd=None):
     x, y, z = a.dims
     ya = a.axes[y].values
     y0 = ya[0]
@@ -139,6 +139,17 @@ def catalogue(da, a, b, t, sq, v, ds, tmpdir, cn, extra=None, lab3=None):
         'commaname-reshape-drop-refused': lambda: cn.reshape(y, z), 'commaname-regroup': lambda: cn.flatten((y, z)).reshape(z, cx, y),
         'commaname-transpose': lambda: cn.transpose(z, y, cx), 'commaname-mean': lambda: cn.mean(axis=cx), 'commaname-add': lambda: cn + cn.mean(axis=y),
     })
+    # rarely used call forms
+    ops.update({
+        'ds-reduce_axis-direct': lambda: ds.reduce_axis(np.sum, axis=z), 'ds-reduce_axis-keepdims': lambda: ds.reduce_axis(np.cumsum, axis=y, keepdims=True),
+        'ds-reduce_axis-keepattrs': lambda: ds.reduce_axis(np.sum, axis=y, keepattrs=True),
+        'set_axis-attrs-copy': lambda: a.set_axis(axis=y, attrs={'replaced': 1}, inplace=False), 'set_axis-kw-copy': lambda: a.set_axis(axis=y, units='m', inplace=False),
+        'set_axis-dict-copy': lambda: a.set_axis({y0: 12345}, axis=y, inplace=False), 'set_axis-callable-copy': lambda: a.set_axis(lambda q: q, axis=-2, inplace=False),
+        'Axis.set-copy': lambda: a.axes[y].set(values=list(range(len(ya))), attrs={'replaced': 2}, inplace=False),
+        'ds-set_axis-attrs-copy': lambda: ds.set_axis(axis=y, attrs={'replaced': 3}, inplace=False),
+        'take-negative-axis': lambda: a.take([y0], axis=-2), 'reindex-negative-axis': lambda: a.reindex_axis([y0, ya[1] + 99], axis=-2),
+        'from_jsondict': lambda: da.DimArray.from_jsondict(jd), 'from_jsondict-again': lambda: da.DimArray.from_jsondict(jd),
+    })
     # index arrays, masks and right-hand sides are "arrays passed to it" too (they are among the watched operands)
     negp, mask3, rhs3 = extra
     ops.update({
@@ -169,6 +180,7 @@ def check(case, ctx):
     ds = da.Dataset()
     ds['a'] = a
     ds['b'] = b.take(0, axis='t', indexing='position').reindex_axis(a.axes[y]) if False else a.mean(axis=z)
+    ds['c'] = deco(a.mean(axis=y))          # a variable without y, with metadata
     ds.attrs['dm'] = {'q': [1]}
     tmpdir = tempfile.mkdtemp(prefix="vp-c15-") if getattr(da, '_ncio', False) else None
     try:
@@ -178,8 +190,9 @@ def check(case, ctx):
         mask3 = np.array(a.values > np.nanmedian(a.values))
         rhs3 = np.arange(float(a.shape[0] * a.shape[2])).reshape(a.shape[0], a.shape[2])
         lab3 = np.array(a.axes[y].values[::-1], copy=True)
-        ops = catalogue(da, a, b, t, sq, v, ds, tmpdir, cn, extra=(negp, mask3, rhs3), lab3=lab3)
-        watched = (a, b, t, sq, v, ds, cn, negp, mask3, rhs3, lab3)
+        jd = a.to_jsondict()
+        ops = catalogue(da, a, b, t, sq, v, ds, tmpdir, cn, extra=(negp, mask3, rhs3), lab3=lab3, jd=jd)
+        watched = (a, b, t, sq, v, ds, cn, negp, mask3, rhs3, lab3, jd)
         names = list(ops)
         classes = []
         for name in names:
